@@ -121,6 +121,11 @@ func (l *Lexer) NextToken() Token {
 			tok.Literal = l.readIdentifier()
 			tok.Type = LookupIdent(tok.Literal)
 
+			if tok.Type == IDENT && !isWellFormedIdentifier(tok.Literal) {
+				// "a:b", "1a", "a#b", a lone "#" or ":" are no names, placeholders or list positions
+				tok.Type = ILLEGAL
+			}
+
 			return tok
 		}
 
@@ -144,6 +149,44 @@ func (l *Lexer) readIdentifier() string {
 
 func isIdentifierLetter(ch byte) bool {
 	return isLetter(ch) || '0' <= ch && ch <= '9' || especialChars[ch]
+}
+
+// isWellFormedIdentifier tells whether the characters read as one identifier are an attribute
+// name (a letter or underscore, then letters, digits and underscores), a #name or :value
+// placeholder (the sign, then at least one letter, digit or underscore) or a list position (digits)
+func isWellFormedIdentifier(literal string) bool {
+	rest := literal
+
+	switch {
+	case literal[0] == '#' || literal[0] == ':':
+		rest = literal[1:]
+
+		if rest == "" {
+			return false
+		}
+	case isNumeral(literal):
+		return true
+	case '0' <= literal[0] && literal[0] <= '9':
+		return false
+	}
+
+	for i := 0; i < len(rest); i++ {
+		if especialChars[rest[i]] && rest[i] != '_' {
+			return false
+		}
+	}
+
+	return true
+}
+
+func isNumeral(literal string) bool {
+	for i := 0; i < len(literal); i++ {
+		if literal[i] < '0' || '9' < literal[i] {
+			return false
+		}
+	}
+
+	return literal != ""
 }
 
 func isLetter(ch byte) bool {
